@@ -92,6 +92,10 @@ fn real_main(args: &[String]) -> i32 {
             println!("elapsed {:.3}s", t.elapsed().as_secs_f64());
             0
         }
+        "isolate" => {
+            runner::install_panic_hook();
+            engine::hist::isolate_main()
+        }
         "describe" => {
             let Some(prop) = args.get(2) else { return 2 };
             let Some(engine) = engine::engine_for(prop) else { return 2 };
